@@ -326,6 +326,9 @@ class DescriptorTransaction(_TransactionBase):
                     all_descriptors = self._mdib.get_all_descriptors_in_subtree(orig_descriptor)
                     self._mdib.rm_descriptors_and_states(all_descriptors)
                     proc.descr_deleted.extend([d.mk_copy() for d in all_descriptors])
+                    # forget pending updates of members of the deleted subtree, otherwise their states would be
+                    # written back to the mdib (without descriptor) and they would be reported as updated
+                    self._forget_updates_of_deleted(proc, {d.Handle for d in all_descriptors})
                     # increment DescriptorVersion if a child descriptor is added or deleted.
                     if orig_descriptor.parent_handle is not None \
                             and orig_descriptor.parent_handle not in to_be_deleted_handles:
@@ -350,6 +353,16 @@ class DescriptorTransaction(_TransactionBase):
                 updates = self._handle_state_updates(updates_dict)
                 dest_list.extend(updates)
         return proc
+
+    def _forget_updates_of_deleted(self, proc: TransactionResult, deleted_handles: set[str]):
+        for updates_dict in (self.alert_state_updates, self.metric_state_updates, self.context_state_updates,
+                             self.component_state_updates, self.operational_state_updates,
+                             self.rt_sample_state_updates):
+            for key, tr_item in list(updates_dict.items()):
+                state = tr_item.new if tr_item.new is not None else tr_item.old
+                if state.DescriptorHandle in deleted_handles:
+                    del updates_dict[key]
+        proc.descr_updated[:] = [d for d in proc.descr_updated if d.Handle not in deleted_handles]
 
     def _update_corresponding_state(self, descriptor_container: AbstractDescriptorProtocol):
         updates_dict = self._get_states_update(descriptor_container)
